@@ -168,7 +168,18 @@ func (h *harness) evalMutation(m mutItem, resp string) []finding {
 			h.rep.Count("resolver-skip")
 			h.rep.Count("resolver-skip:mutated")
 		} else {
-			fs = append(fs, finding{kind: "disagreement", goR: g.wire(), model: resp, detail: "T3 model run vs decoder on the mutated text " + quoted + " pkg=" + m.pkg + " base=" + strconv.Quote(m.base)})
+			var activeClass *vh.Finding
+			for _, c := range textClasses(m.text) {
+				if f, ok := h.active[c]; ok {
+					activeClass = &f
+					break
+				}
+			}
+			if activeClass != nil {
+				fs = append(fs, finding{kind: "known", key: activeClass.Key, goR: g.wire(), model: resp, detail: "T3 on a mutated text inside (the textual over-approximation of) known class " + activeClass.Predicate + ": " + activeClass.What})
+			} else {
+				fs = append(fs, finding{kind: "disagreement", goR: g.wire(), model: resp, detail: "T3 model run vs decoder on the mutated text " + quoted + " pkg=" + m.pkg + " base=" + strconv.Quote(m.base)})
+			}
 		}
 	}
 	if m.pkg == "turtle" {
